@@ -327,6 +327,81 @@ func ReturnTuples(fn *ssa.Function) []RetTuple {
 	return out
 }
 
+// Exit is one way out of a function with its result values resolved: when the returning block's results are phis
+// (a single `return x` fed by several assignments, a named result), each incoming edge — followed back through joins
+// that only merge values — is an exit of its own.
+type Exit struct {
+	Ret      *ssa.Return
+	Vals     []ssa.Value
+	From, To *ssa.BasicBlock // the edge on which the values are decided; nil when the results are not phis
+}
+
+// Exits lists the exits of fn (nested phis expanded up to a small depth).
+func Exits(fn *ssa.Function) []Exit {
+	var out []Exit
+	for _, r := range Returns(fn) {
+		var expand func(vals []ssa.Value, blk *ssa.BasicBlock, from, to *ssa.BasicBlock, depth int)
+		expand = func(vals []ssa.Value, blk *ssa.BasicBlock, from, to *ssa.BasicBlock, depth int) {
+			hasPhi := false
+			for _, v := range vals {
+				if p, ok := v.(*ssa.Phi); ok && p.Block() == blk {
+					hasPhi = true
+				}
+			}
+			if !hasPhi || depth > 4 {
+				out = append(out, Exit{r, vals, from, to})
+				return
+			}
+			for k, pred := range blk.Preds {
+				nv := make([]ssa.Value, len(vals))
+				for i, v := range vals {
+					if p, ok := v.(*ssa.Phi); ok && p.Block() == blk {
+						nv[i] = p.Edges[k]
+					} else {
+						nv[i] = v
+					}
+				}
+				// keep following only through blocks that do nothing but merge
+				pure := true
+				for _, in := range pred.Instrs {
+					switch in.(type) {
+					case *ssa.Phi, *ssa.Jump, *ssa.DebugRef:
+					default:
+						pure = false
+					}
+				}
+				if pure && len(pred.Preds) > 0 {
+					expand(nv, pred, pred, blk, depth+1)
+				} else {
+					out = append(out, Exit{r, nv, pred, blk})
+				}
+			}
+		}
+		expand(r.Results, r.Block(), nil, nil, 0)
+	}
+	return out
+}
+
+// MustPassExit: every path from entry that leaves through e passes one of cuts.
+func MustPassExit(fn *ssa.Function, cuts *Cuts, e Exit) bool {
+	if e.From == nil {
+		return MustPass(fn, cuts, e.Ret)
+	}
+	if cuts.Edges[Edge{e.From, e.To}] {
+		return true
+	}
+	return MustPass(fn, cuts, e.From.Instrs[len(e.From.Instrs)-1])
+}
+
+// CanReachExit: instruction a can be followed by exit e.
+func CanReachExit(fn *ssa.Function, a ssa.Instruction, e Exit) bool {
+	if e.From == nil {
+		return CanReach(fn, a, e.Ret)
+	}
+	last := e.From.Instrs[len(e.From.Instrs)-1]
+	return a == last || CanReach(fn, a, last)
+}
+
 // deadRecoverBlock: the recover block go/ssa adds to every function with a defer is entered only when a deferred
 // call recovers from a panic. When no deferred call of fn can call recover() (library calls such as Pool.Put,
 // Mutex.Unlock, WaitGroup.Done; module functions and literals without a recover() of their own or in their static
@@ -1515,6 +1590,47 @@ func EvalInt(v ssa.Value, abs Abstract) (int64, bool) {
 	return 0, false
 }
 
+// EvalOnPath evaluates v at the end of a path of blocks (as returned by Walk): phis take the value arriving from
+// the block the path came through.
+func EvalOnPath(path []*ssa.BasicBlock, v ssa.Value, abs Abstract) (int64, bool) {
+	phiVals := map[ssa.Value]int64{}
+	abs2 := func(x ssa.Value) (int64, bool) {
+		if k, ok := phiVals[x]; ok {
+			return k, true
+		}
+		if abs != nil {
+			return abs(x)
+		}
+		return 0, false
+	}
+	for i := 1; i < len(path); i++ {
+		b, from := path[i], path[i-1]
+		idx := -1
+		for k, p := range b.Preds {
+			if p == from {
+				idx = k
+			}
+		}
+		if idx < 0 {
+			continue
+		}
+		vals := map[ssa.Value]int64{}
+		for _, in := range b.Instrs {
+			phi, ok := in.(*ssa.Phi)
+			if !ok {
+				break
+			}
+			if k, ok := EvalInt(phi.Edges[idx], abs2); ok {
+				vals[phi] = k
+			}
+		}
+		for k, x := range vals {
+			phiVals[k] = x
+		}
+	}
+	return EvalInt(v, abs2)
+}
+
 // Walk follows the CFG of a loop-free decision from entry, deciding every If through abs.
 // It returns the terminating Return, the blocks visited, or a reason it could not decide.
 func Walk(fn *ssa.Function, abs Abstract) (*ssa.Return, []*ssa.BasicBlock, string) {
@@ -1526,9 +1642,29 @@ func WalkFrom(b *ssa.BasicBlock, abs Abstract) (*ssa.Return, []*ssa.BasicBlock, 
 	var path []*ssa.BasicBlock
 	seen := map[*ssa.BasicBlock]bool{}
 	phiVals := map[ssa.Value]int64{}
+	phiNil := map[ssa.Value]bool{} // pointer/interface phis whose value on this path is known nil (true) or non-nil (false)
 	abs2 := func(v ssa.Value) (int64, bool) {
 		if k, ok := phiVals[v]; ok {
 			return k, true
+		}
+		// x == nil / x != nil for a value whose nil-ness is known on this path
+		if bo, ok := v.(*ssa.BinOp); ok && (bo.Op == token.EQL || bo.Op == token.NEQ) {
+			x, y := bo.X, bo.Y
+			if IsNilConst(x) {
+				x, y = y, x
+			}
+			if IsNilConst(y) {
+				isNil, known := phiNil[x]
+				if !known {
+					isNil, known = nilness(x, 0)
+				}
+				if known {
+					if (bo.Op == token.EQL) == isNil {
+						return 1, true
+					}
+					return 0, true
+				}
+			}
 		}
 		if abs != nil {
 			return abs(v)
@@ -1555,6 +1691,13 @@ func WalkFrom(b *ssa.BasicBlock, abs Abstract) (*ssa.Return, []*ssa.BasicBlock, 
 				vals[phi] = k
 			} else {
 				delete(phiVals, phi)
+			}
+			delete(phiNil, phi)
+			e := phi.Edges[idx]
+			if n, known := phiNil[e]; known {
+				phiNil[phi] = n
+			} else if n, known := nilness(e, 0); known {
+				phiNil[phi] = n
 			}
 		}
 		for k, v := range vals {
